@@ -32,6 +32,7 @@ mod compliance {
     const LOG: Symbol = symbol_short!("log");
     const CT: Symbol = symbol_short!("ct");
     const CC: Symbol = symbol_short!("cc");
+    const TR: Symbol = symbol_short!("trap");
 
     fn push(e: &Env, k: &str, from: Option<Address>, to: Option<Address>, amount: i128, token: Address) {
         let mut l: Vec<CallRec> = e.storage().instance().get(&LOG).unwrap_or(Vec::new(e));
@@ -52,6 +53,12 @@ mod compliance {
             e.storage().instance().set(&CC, &v);
         }
 
+        /// how a refusal is delivered: answered `false`, or (trap) by failing the call - the way the library's modular
+        /// compliance contract refuses when one of its modules raises an error
+        pub fn set_trap(e: &Env, v: bool) {
+            e.storage().instance().set(&TR, &v);
+        }
+
         pub fn take_log(e: &Env) -> Vec<CallRec> {
             let l: Vec<CallRec> = e.storage().instance().get(&LOG).unwrap_or(Vec::new(e));
             e.storage().instance().set(&LOG, &Vec::<CallRec>::new(e));
@@ -60,12 +67,20 @@ mod compliance {
 
         pub fn can_transfer(e: &Env, from: Address, to: Address, amount: i128, token: Address) -> bool {
             push(e, "can_transfer", Some(from), Some(to), amount, token);
-            e.storage().instance().get(&CT).unwrap_or(true)
+            let ok: bool = e.storage().instance().get(&CT).unwrap_or(true);
+            if !ok && e.storage().instance().get(&TR).unwrap_or(false) {
+                panic!("compliance module refuses");
+            }
+            ok
         }
 
         pub fn can_create(e: &Env, to: Address, amount: i128, token: Address) -> bool {
             push(e, "can_create", None, Some(to), amount, token);
-            e.storage().instance().get(&CC).unwrap_or(true)
+            let ok: bool = e.storage().instance().get(&CC).unwrap_or(true);
+            if !ok && e.storage().instance().get(&TR).unwrap_or(false) {
+                panic!("compliance module refuses");
+            }
+            ok
         }
 
         pub fn transferred(e: &Env, from: Address, to: Address, amount: i128, token: Address) {
@@ -412,11 +427,14 @@ impl Sys {
             "set_ct" => {
                 no_auth(e);
                 compliance::MockComplianceClient::new(e, &self.cmp).set_ct(&flag);
+                // (amt = 1: from now on a refusal is delivered by failing the call instead of answering false)
+                compliance::MockComplianceClient::new(e, &self.cmp).set_trap(&(n(op, "amt") == 1));
                 ("ok", 0)
             }
             "set_cc" => {
                 no_auth(e);
                 compliance::MockComplianceClient::new(e, &self.cmp).set_cc(&flag);
+                compliance::MockComplianceClient::new(e, &self.cmp).set_trap(&(n(op, "amt") == 1));
                 ("ok", 0)
             }
             "set_rec" => {
@@ -617,7 +635,7 @@ fn main() {
                             mkop(kind, "none", "none", sup, 0, false, 0, au, dt)
                         }
                         "set_id" => mkop("set_id", from, "none", "none", 0, open, 0, vec![], dt),
-                        "set_ct" | "set_cc" => mkop(kind, "none", "none", "none", 0, open, 0, vec![], dt),
+                        "set_ct" | "set_cc" => mkop(kind, "none", "none", "none", if r.gen_bool(0.4) { 1 } else { 0 }, open, 0, vec![], dt),
                         "set_rec" => {
                             let target = if r.gen_bool(0.2) { "none" } else { to };
                             rec.insert(from.to_string(), target.to_string());
